@@ -318,11 +318,11 @@ def build_cases(tier):
     quick = tier == "quick"
     cases = []
     if quick:
-        kinds = ["block@other", "block@kitty", "kitty-lines@kitty", "iterm2-lines@wezterm", "iterm2-lines@konsole"]
-        images = {"block": ["3x2", "runs4x3"], "g": ["3x2"]}
-        box = [(c, r) for c in (3, 5, 6) for r in (2, 4)] + [(4, 3), (7, 5)]
-        flow = [(3,), (5,), (6,)]
-        alphas = {"block": ("", "#", "#102030"), "g": ("", "#")}
+        kinds = list(KINDS)
+        images = {"block": ["3x2", "4x3", "runs4x3"], "g": ["3x2", "4x3"]}
+        box = [(c, r) for c in range(3, 8) for r in range(2, 6)]
+        flow = [(c,) for c in range(3, 8)]
+        alphas = {"block": ALPHAS, "g": ("", "#")}
     else:
         kinds = list(KINDS)
         images = {"block": ["1x1", "3x2", "4x3", "5x2", "runs4x3", "runs6x2"], "g": ["1x1", "3x2", "4x3"]}
